@@ -2,7 +2,7 @@
 """try_benign.py [ids...]: applies each behaviour-preserving patch under /verif/benign/<id>/patch.diff to a scratch copy of
 /repo and runs every claimed check against it. Any violation is a FALSE ALARM of the checker. Scratch copies removed."""
 import json, os, subprocess, sys, tempfile, shutil, concurrent.futures as cf
-ROOT='/verif'
+ROOT=os.environ.get('VERIF_ROOT','/verif')
 env=dict(os.environ, GOFLAGS='-mod=mod', GOPROXY='off', GOSUMDB='off', GOTOOLCHAIN='local'); env.pop('GOWORK',None)
 claimed=sorted(json.load(open(f'{ROOT}/tools/claims.json'))['claimed'].keys())
 props=os.environ.get('BN_PROPS'); props=props.split(',') if props else claimed
